@@ -213,6 +213,31 @@ PROPS = {
                    "nothing of a phase arrives after its fence. Faults: message delay, lazy Iprobe/Test, host stalls, clock jumps (aggregation time-out), spurious weak-CAS failure.",
         level_note="Sampling over seeds. MPI itself is a stub that keeps the standard's guarantees (reliable, non-overtaking per pair); loss/duplication/corruption are not injected because the code makes no promise about them.",
         **tiers(1500, 170, 40000, 2400, run_timeout_s=120)),
+    "C19": dict(
+        jobs=[dict(harness="c18_gluon", variant="a", weight=2, build=dist_build(libs=("libgalois", "libdist", "libgluon", "simmpi")), params={"mode": 0}),
+              dict(harness="c18_gluon", variant="n", weight=1, build=dist_build(libs=("libgalois", "libdist", "libgluon", "simmpi")), params={"mode": 0})],
+        components=dict(real=REAL_SHMEM + ["libcusp: cuspPartitionGraph / NewDistGraphGeneric and all policies; BufferedGraph reader; libdist network"],
+                        stub=STUBS + ["MPI library (simulated)", "hosts = forked processes on one shared scheduler"]),
+        expected_probes=["hosts"],
+        design_ref="3.19",
+        level_text="The real CuSP partitioner runs on 1-4 simulated hosts x 1-3 threads for policies OEC, IEC (transpose input), HOVC, CVC, CVC column-flip, Ginger, Fennel, Sugar, OEC-symmetric and CVC with CSC output "
+                   "on generated graphs (isolated nodes, hubs, self loops, parallel edges, fewer nodes than hosts). Every host dumps nodes, id maps, flags, edges and mirror lists into a side channel; the parent checks: "
+                   "each input edge exactly once in the union, exactly one master per node and agreement of getHostID, L2G/G2L inverse, masters before mirrors, a proxy for every endpoint of a local edge, mirror lists equal to the "
+                   "non-owned proxies grouped by owner, OEC/IEC promises. The simulator varies the arrival order of edge/metadata messages, host and communication-thread stalls, threads per host.",
+        level_note="Sampling over seeds; MPI is a stub that keeps the standard's guarantees. Master/mirror list agreement between peers is exercised through the Gluon exchange in the C18 check.",
+        **tiers(400, 170, 20000, 2400, run_timeout_s=120)),
+    "C18": dict(
+        jobs=[dict(harness="c18_gluon", variant="a", weight=2, build=dist_build(libs=("libgalois", "libdist", "libgluon", "simmpi")), params={"mode": 1}),
+              dict(harness="c18_gluon", variant="n", weight=1, build=dist_build(libs=("libgalois", "libdist", "libgluon", "simmpi")), params={"mode": 1})],
+        components=dict(real=REAL_SHMEM + ["libgluon: GluonSubstrate::sync and its wire encodings; libcusp partitioner; libdist network"],
+                        stub=STUBS + ["MPI library (simulated)", "hosts = forked processes on one shared scheduler"]),
+        expected_probes=["sync_rounds"],
+        design_ref="3.18",
+        level_text="On CuSP-partitioned graphs (same policy/host matrix as C19) 1-4 sync rounds with generated write sets (densities 0-100% select the wire encoding), reducers min (with and without update bitset) and add, "
+                   "write location Any and read locations Source/Destination/Any. Pre- and post-sync values of every proxy leave through the side channel; the parent requires every readable proxy (and the master) to hold exactly "
+                   "the reduction of the master's previous value and all contributions.",
+        level_note="Sampling over seeds. Write locations Source/Destination are exercised only through write-Any plans at this commit (eligibility is decided from the gathered edges on the read side).",
+        **tiers(300, 170, 20000, 2400, run_timeout_s=120)),
 }
 
 ALL_IDS = ["C%02d" % i for i in range(1, 21)]
